@@ -163,3 +163,26 @@ REG.contract('C11', UN, 'do_uninstall', variant='one-entry', region=('Try', 'os.
                       f"(final('failures') == failures + 1) == (len([e for e in __trace__ if e[0] == 'raised']) == 1)"],
              effects={'isdir': {'returns': Bool, 'raises': []}, 'islink': {'returns': Bool, 'raises': []}, 'rmdir': ['OSError'], 'unlink': ['OSError']},
              floor=6, note='one logged path: removed with rmdir iff it is a real directory (not a link to one), with unlink otherwise; the outcome is counted as a success or a failure, and the loop goes on either way')
+
+# ---- do_copydir, the per-file half of the walk: a missing parent directory is created THROUGH THE DirMaker (which records it for the
+# install log, so that uninstall removes it) and never behind its back; every file that is not excluded is copied and then gets its mode.
+# A loop over the files of one directory of the walk, for any number of files (invariant over ghost sequences of the effects).
+CopyS = Struct('Installer', 'mesonbuild.minstall:Installer')
+REG.contract('C11', I, 'Installer.do_copydir', variant='files-of-one-directory', region=('For', 'if filepart in exclude_files'),
+             params={'self': CopyS, 'data': Struct('InstallData', 'mesonbuild.backend.backends:InstallData', install_umask=Int), 'root': Str, 'files': List(Str),
+                     'src_dir': Str, 'dst_dir': Str, 'exclude_files': Set(Str), 'install_mode': Obj, 'dm': Obj, 'follow_symlinks': Opt(Bool)},
+             ensures=["len(own) == 0",
+                      "len(cpd) == len(smp) and len(smm) == len(smp) and len(smu) == len(smp)",
+                      "smp == cpd", "forall(Int, lambda k: implies(0 <= k and k < len(smm), smm[k] is install_mode and smu[k] == data.install_umask))",
+                      "forall(Int, lambda k: implies(0 <= k and k < len(mkr), mkr[k] is dm))",
+                      "len(cpd) <= len(files)"],
+             raises={'SystemExit': 'True'}, exact_raises=False,
+             loops={'for f in files': Loop(invariant=["len(own) == 0", "len(cpd) == len(smp) and len(smm) == len(smp) and len(smu) == len(smp) and len(cpd) <= __i",
+                                                      "smp == cpd", "forall(Int, lambda k: implies(0 <= k and k < len(smm), smm[k] is install_mode and smu[k] == data.install_umask))",
+                                                      "forall(Int, lambda k: implies(0 <= k and k < len(mkr), mkr[k] is dm))"],
+                                           locals={'abs_src': Str, 'filepart': Str, 'abs_dst': Str, 'parent_dir': Str})},
+             ghost_seqs={'own': ('self.makedirs', None, Int), 'mkr': ('makedirs', 1, Obj), 'cpd': ('do_copyfile', 2, Str),
+                         'smp': ('set_mode', 1, Str), 'smm': ('set_mode', 2, Obj), 'smu': ('set_mode', 3, Int)},
+             effects={'isdir': {'returns': Bool, 'raises': []}}, opaque_fns={'relpath': ([Str, Opt(Str)], Str)},
+             method_effects={'self.makedirs': [], 'makedirs': [], 'copystat': [], 'do_copyfile': {'returns': Bool, 'raises': []}, 'set_mode': []},
+             floor=6, note='the per-file loop of do_copydir for one directory of the walk: no directory is created except through the DirMaker; each copied file then gets set_mode(destination, install_mode, install_umask)')
